@@ -420,14 +420,14 @@ class C14(Prop):
             first_of_message = conn['since'] == b''
             conn['since'] += chunk
             many_ok = H.two_messages_possible(conn['since'])
-            badcl = H.bad_content_length(conn['since']) or H.bad_chunk_size(conn['since'])
+            badcl = H.bad_request_line(conn['since']) or H.bad_content_length(conn['since']) or H.bad_chunk_size(conn['since'])
             if badcl and (resps or newreq):
                 # "4xx/5xx for malformed input": the first message of this stretch must be refused, never dispatched
-                classes.append('chunk-size-must-be-refused' if badcl.startswith('chunk') else 'content-length-must-be-refused')
+                classes.append('chunk-size-must-be-refused' if badcl.startswith('chunk') else 'content-length-must-be-refused' if badcl.startswith(('Content', 'conflicting')) else 'request-line-must-be-refused')
                 if newreq and (not resps or resps[0]['status'] < 400):
-                    return bad('malformed-dispatched', 'request event dispatched for a message whose %s: %r' % (badcl, conn['since'][:120]))
+                    return bad('malformed-dispatched', 'request event dispatched for a message: %s: %r' % (badcl, conn['since'][:120]))
                 if resps and resps[0]['status'] < 400:
-                    return bad('malformed-accepted', 'message whose %s answered with %d: %r' % (badcl, resps[0]['status'], conn['since'][:120]))
+                    return bad('malformed-accepted', 'message (%s) answered with %d: %r' % (badcl, resps[0]['status'], conn['since'][:120]))
             if not resps:
                 # "simply closes (TLS handshake on a plain-text port)": only a read that STARTS a message can be a client hello
                 if closes and not (first_of_message and H.looks_like_tls(chunk)):
